@@ -14,6 +14,7 @@ pub mod c11;
 pub mod c12;
 pub mod c13;
 pub mod c14;
+pub mod c15;
 pub mod c20;
 pub mod pairs;
 pub mod util;
@@ -36,6 +37,7 @@ pub fn run(ctx: &Ctx) -> PropResult {
         "C12" => c12::run(ctx),
         "C13" => c13::run(ctx),
         "C14" => c14::run(ctx),
+        "C15" => c15::run(ctx),
         "C20" => c20::run(ctx),
         other => Err(format!("no monitor for {}", other)),
     }
